@@ -139,7 +139,8 @@ Definition plain_silent (r : rule) : bool :=
   r_silent r && kind_eqb (r_kind r) KNormal && negb (is_trivia_name (r_name r)).
 
 (* the literal set denoted by the operand of the negative predicate in (!X ~ ANY)*:
-   skippers._skip — strings, choices, untagged groups, references (any rule), SkipUntil *)
+   skippers._skip — strings, choices, untagged groups, references (any rule).
+   (An operand that is itself a skip-until is NOT a literal set: it matches the empty text.) *)
 Fixpoint lits (fuel : nat) (e : expr) : option (list text) :=
   match fuel with
   | O => None
@@ -152,7 +153,6 @@ Fixpoint lits (fuel : nat) (e : expr) : option (list text) :=
                                    | Some a, Some b => Some (a ++ b)
                                    | _, _ => None end) (Some []) es
       | ERef n None => match lookup g n with Some r => lits f (r_body r) | None => None end
-      | ESkipUntil ws => Some ws
       | _ => None
       end
   end.
